@@ -901,6 +901,9 @@ func (in *interpreter) unop(instr *ssa.UnOp, x value) value {
 		if p == nil {
 			panic(runtimeError("invalid memory address or nil pointer dereference"))
 		}
+		if in.race != nil && in.race.on {
+			in.raceNoteLoad(mustDeref(instr.X.Type()), p)
+		}
 		return load(mustDeref(instr.X.Type()), p)
 	case token.NOT:
 		return !x.(bool)
